@@ -120,9 +120,11 @@ def run(chk: Check):
                       "summarised_calls": dict(tr.interp.summary_uses)})
     tr.feed(chk, {"S1-list-field": "S1-list-field", "S1-field-kind": "S1-field-kind", "S2-required": "S2-required",
                   "S3-ctx": "S3-ctx", "S4-location": "S4-location", "S6-singleton-write": "S6-singleton-write",
-                  "A5-loc-key": "A5-loc-key", "A5-loc-pair": "A5-loc-pair", "S1-joinedstr-bytes": "S1-joinedstr-bytes"})
+                  "A5-loc-key": "A5-loc-key", "A5-loc-pair": "A5-loc-pair", "A5-loc-order": "A5-loc-order", "S1-joinedstr-bytes": "S1-joinedstr-bytes"})
     rule_s5(chk, ir)
     rule_s6(chk)
+    from .c01 import rule_result_span
+    rule_result_span(chk, ir)
     chk.floor("S1-list-field", 100)
     chk.floor("S1-field-kind", 250)
     chk.floor("S2-required", 250)
